@@ -17,7 +17,7 @@ ENCODED = [
 ]
 STUBS = ["mchap.jitutils.add_log_prob -> ln(e^x+e^y) summary (lemma-checked in C17 itself on every run)"]
 ASSUMES = ["allele frequencies symbolic > 0 summing to one", "error rates symbolic in (0,1) or the endpoints 0 / 1",
-           "lambda symbolic in (0,1) (tau = 2 only) or exactly 0"]
+           "lambda symbolic in (0,1) (tau = 2 only, from a parent of any ploidy >= 2 incl. a diploid giving an unreduced gamete) or exactly 0"]
 BOUNDS = {
     "quick": "parent p enumerated up to allele relabelling (thorough: all); trios 2x*2x (3 alleles), 4x*4x (2-3 alleles, with/without lambda), 2x*4x->3x (2 alleles), one/both parents unknown, clones tau=(0,2),(2,0),(4,0) with both parents known (2 alleles); all parent and progeny genotypes enumerated",
     "thorough": "adds 6x*6x (2 alleles), 4x*4x with 4 alleles, 2x*4x->3x and 4x*2x->3x with 3 alleles, clones tau=(0,2),(0,4),(4,0), 6x*2x->4x, unreduced tau=(2,2) from diploids",
@@ -27,7 +27,9 @@ OUTSIDE = "ploidy > 6, more than 4 alleles, float rounding"
 # (ploidy_p, ploidy_q, tau_p, tau_q, n_alleles)   ploidy 0 = unknown parent
 QUICK = [(2, 2, 1, 1, 3), (4, 4, 2, 2, 2), (4, 4, 2, 2, 3), (2, 4, 1, 2, 2), (2, 0, 1, 1, 3), (0, 0, 1, 1, 2), (4, 0, 2, 2, 2), (0, 4, 2, 2, 2),
          # clones of one KNOWN parent next to another known parent that contributes nothing (tau = 0 on either side)
-         (2, 2, 0, 2, 2), (2, 2, 2, 0, 2), (4, 2, 4, 0, 2)]
+         (2, 2, 0, 2, 2), (2, 2, 2, 0, 2), (4, 2, 4, 0, 2),
+         # unreduced (tau = 2) gamete of a diploid next to an unknown parent, with and without double reduction
+         (2, 0, 2, 1, 3), (0, 2, 1, 2, 2)]
 THOROUGH = QUICK + [(6, 6, 3, 3, 2), (4, 4, 2, 2, 4), (2, 4, 1, 2, 3), (4, 2, 2, 1, 3), (2, 2, 0, 2, 3), (4, 4, 0, 4, 2), (4, 4, 4, 0, 2),
                     (6, 2, 3, 1, 2), (2, 2, 2, 2, 2), (6, 4, 3, 2, 2), (0, 0, 2, 2, 3), (6, 0, 3, 3, 2)]
 
@@ -40,7 +42,7 @@ def configs(tier):
             # quick tier: parent p up to allele relabelling (q and the progeny still range over everything)
             Ps = [g for g in Ps if _canonical(g)]
         lam_modes = [0]
-        if (tp == 2 and pp >= 4) or (tq == 2 and pq >= 4):
+        if (tp == 2 and pp >= 2) or (tq == 2 and pq >= 2):
             lam_modes.append(1)
         for P in Ps:
             for lam in lam_modes:
@@ -64,10 +66,11 @@ PEDERR_PEDS = {
     "duo-clone": ([2, 2], [[-1, -1], [0, -1]], [[1, 1], [2, 0]], [[0.0, 0.0], [0.0, 0.0]]),
     "duo-lambda-p": ([4, 4], [[-1, -1], [0, -1]], [[2, 2], [2, 2]], [[0.0, 0.0], [0.125, 0.0]]),
     "duo-lambda-q": ([4, 4], [[-1, -1], [-1, 0]], [[2, 2], [2, 2]], [[0.0, 0.0], [0.0, 0.125]]),
+    "duo-unreduced-lambda": ([2, 4], [[-1, -1], [0, -1]], [[1, 1], [2, 2]], [[0.0, 0.0], [0.125, 0.0]]),
     "trio-unbalanced": ([2, 4, 3], [[-1, -1], [-1, -1], [0, 1]], [[1, 1], [2, 2], [1, 2]], [[0.0, 0.0]] * 3),
     "trio-lambda": ([4, 4, 4], [[-1, -1], [-1, -1], [1, 0]], [[2, 2], [2, 2], [2, 2]], [[0.0, 0.0], [0.0, 0.0], [0.125, 0.0]]),
 }
-PEDERR_QUICK = ["duo-p-unbalanced", "duo-q-unbalanced", "duo-clone", "duo-lambda-p", "duo-lambda-q", "trio-unbalanced"]
+PEDERR_QUICK = ["duo-p-unbalanced", "duo-q-unbalanced", "duo-clone", "duo-lambda-p", "duo-lambda-q", "duo-unreduced-lambda", "trio-unbalanced"]
 
 
 def _canonical(g):
@@ -188,7 +191,8 @@ def run_config(c, col):
                     tot = tot + E.np.exp(pp_.gamete_log_pmf(gd, tp, pd, c["pp"], _sym(lp)))
                 duo = {}
                 for g in progs:
-                    duo[g] = bool(pv.duo_valid(E.np.array(list(g), dtype=rnp.int64), _pad(P, max(ploidy, c["pp"])), tp, _sym(lp)))
+                    # as the PEDERR code calls it: both genotypes sliced to their own ploidy
+                    duo[g] = bool(pv.duo_valid(E.np.array(list(g), dtype=rnp.int64), E.np.array(list(P), dtype=rnp.int64), tp, _sym(lp)))
                 return lp, tot, duo
 
             for pr in E.explore(body2, stats=col.stats):
@@ -392,8 +396,7 @@ def replay(v):
             val = bool(rv.trio_valid(rnp.array(g), rnp.array(P), rnp.array(Q), tp, tq, lp, lq))
             want = M.mendelian_valid(g, P, Q, tp, tq, dr_p=lp > 0, dr_q=lq > 0)
         else:
-            mp = max(tp + tq, c["pp"])
-            val = bool(rv.duo_valid(rnp.array(g), rnp.array(list(P) + [-1] * (mp - len(P))), tp, lp))
+            val = bool(rv.duo_valid(rnp.array(g), rnp.array(list(P)), tp, lp))
             want = M.duo_mendelian_valid(g, P, tp, dr=lp > 0)
         return val != want, "validity=%r oracle=%r (g=%s P=%s Q=%s)" % (val, want, g, P, Q)
     if k == "gamete-sum-to-one":
@@ -433,8 +436,8 @@ def validate(seed):
         f = [round(x / sum(f), 3) for x in f]
         f[-1] = round(1 - sum(f[:-1]), 3)
         ep, eq = rnd.choice([0.0, 0.125, 1.0]), rnd.choice([0.0, 0.25])
-        lp = rnd.choice([0.0, 0.125]) if (tp == 2 and pp >= 4) else 0.0
-        lq = rnd.choice([0.0, 0.25]) if (tq == 2 and pq >= 4) else 0.0
+        lp = rnd.choice([0.0, 0.125]) if (tp == 2 and pp >= 2) else 0.0
+        lq = rnd.choice([0.0, 0.25]) if (tq == 2 and pq >= 2) else 0.0
         real = _real_trio(c, g, P, Q, f, ep, eq, lp, lq)
         mp = max(tp + tq, pp, pq)
 
